@@ -62,7 +62,19 @@ class C14(ProgramProperty):
         recs = make_records(rng, alph, jsonld_safe=(fmt == "jsonld"))
         syn = fmt in ("jsonld", "shacl") and rng.random() < 0.5
         expand = fmt == "jsonld" and rng.random() < 0.5
-        steps = [init_step(0, recs), q(0, "records"), q(0, "delimiter"), q(0, "prefix_map"), q(0, "bimap"), q(0, "pattern_map"),
+        build = [init_step(0, recs)]
+        how = "constructor"
+        if rng.random() < 0.35 and all(r["pat"] is None for r in recs):
+            # a converter that *acquired* its synonyms: loaded from a plain prefix map (synonym fields never set),
+            # then extended with add_prefix(merge=True)
+            how = "prefix-map-then-merge"
+            build = [{"op": "load_pm", "dst": 0, "data": [[r["p"], r["u"]] for r in recs]}]
+            for r in recs:
+                for x in r["ps"]:
+                    build.append({"op": "add_prefix", "c": 0, "p": x, "u": r["u"], "merge": True})
+                for x in r["us"]:
+                    build.append({"op": "add_prefix", "c": 0, "p": r["p"], "u": x, "merge": True})
+        steps = build + [q(0, "records"), q(0, "delimiter"), q(0, "prefix_map"), q(0, "bimap"), q(0, "pattern_map"),
                  {"op": "roundtrip", "dst": 1, "src": 0, "fmt": fmt, "syn": syn, "expand": expand},
                  q(1, "delimiter"), q(1, "prefix_map"), q(1, "bimap"), q(1, "pattern_map")]
         if not syn:   # with synonyms the file is read in non-strict mode: several records share a URI prefix
@@ -71,14 +83,14 @@ class C14(ProgramProperty):
         nontrivial = any("\\" in s_ or any(ord(ch) > 127 for ch in s_) for s_ in strings) or \
             len({bool(r["ps"]) for r in recs}) == 2
         return {"steps": steps, "fmt": fmt, "syn": syn, "expand": expand, "nontrivial": nontrivial,
-                "tags": [f"fmt={fmt}", f"syn={syn}", f"expand={expand}"]}
+                "tags": [f"fmt={fmt}", f"syn={syn}", f"expand={expand}", f"build={how}"]}
 
     def evaluations(self, case):
         return 1
 
     def reductions(self, case):
         for c in super().reductions(case):
-            if all(st["op"] != "init" or st["records"] for st in c["steps"]):   # SHACL needs a non-empty converter
+            if all((st["op"] != "init" or st["records"]) and (st["op"] != "load_pm" or st["data"]) for st in c["steps"]):
                 yield c
 
     def laws(self, case, impl):
